@@ -114,6 +114,13 @@ BASE = {
 }
 
 
+# Pairs whose failure is a wild jump (the function compiled from a 10000-deep `each` pattern has more than 32767
+# instructions and its 16-bit jump offsets overflow silently): running it either loops for ever or segfaults,
+# depending on the memory layout. Both outcomes are reported under the one signature `crash:<pair>`; such a pair runs
+# one item per process with the short watchdog and is not run deeper once it has failed.
+VOLATILE = {("form", "eval", "each-destructure")}
+
+
 def depth_cap(p, quick):
     """Static depth caps for inputs whose cost is superlinear in the depth (documented in NOTES.md)."""
     if p.family == "form" and p.consumer == "macex":
@@ -123,8 +130,6 @@ def depth_cap(p, quick):
         return 256 if quick else 512            # nested |(...) expansion is quadratic in memory (GC locked)
     if p.consumer in ("compose/comptime", "compose/compile-in-macro"):
         return 4096                             # input size is 500 x depth
-    if p.family == "form" and p.shape in ("plus-wide", "string-wide"):
-        return 131072                           # flat forms: every constant past the 65535th rescans the whole pool
     if p.shape == "fiblist" and quick:
         return 131072                           # 10^6 live fibers cost ~30 s per item
     return TOP
@@ -387,22 +392,30 @@ def main():
 
     def run_split(work, nchunks, timeout, jobs=None):
         loud_keys = crashed_pairs()
+        vol = [w for w in work if w[0].key in VOLATILE]
+        work = [w for w in work if w[0].key not in VOLATILE]
         calm = [w for w in work if w[0].key not in loud_keys]
         loud = [w for w in work if w[0].key in loud_keys]
         run.run(interleave(calm, nchunks), chunk=max(4, len(calm) // nchunks + 1), timeout=timeout, jobs=jobs)
         run.run_isolated(loud, timeout=60 if quick else 300)
+        for w in sorted(vol, key=lambda w: w[1]):
+            if sched(*w):
+                run.run_isolated([w], timeout=HANG_TIMEOUT)
+                o = w[0].obs[w[1]]
+                if o.cls in ("TIMEOUT", "CRASH") and w[0].stopped is None:
+                    w[0].stopped = (w[1], o.cls)
 
     rounds_small = [[d for d in depths if lo < d <= hi] for lo, hi in ((1, 16), (16, 128), (128, 1100), (1100, 4096))]
     for ds in rounds_small:
         work = [(p, d) for p in sweep_pairs for d in ds if sched(p, d)]
-        run_split(work, 64, 600)
+        run_split(work, 64, 240)
         chk.part("depths_%d_%d" % (ds[0], ds[-1]), items=len(work), wall_s=round(chk.elapsed(), 1))
     for d in [d for d in depths if d > 4096]:
         if chk.out_of_time(0.7):
             chk.cap("depth sweep stopped before depth %d (time budget)" % d)
             break
         work = [(p, d) for p in sweep_pairs if sched(p, d)]
-        run_split(work, 48, 400, jobs=16 if d < (1 << 18) else 12)
+        run_split(work, 48, 90 if d < 100000 else 400, jobs=16 if d < (1 << 18) else 12)
         chk.part("depth_%d" % d, items=len(work), wall_s=round(chk.elapsed(), 1))
         chk.cov["bound_completed"] = "depth %d" % d
 
@@ -495,7 +508,9 @@ def main():
                 fails.setdefault("dead", []).append(d)
             elif o.cls == "TIMEOUT":
                 stats["timeout"] += 1
-                if p.kind == "cyclic":
+                if p.key in VOLATILE:
+                    fails.setdefault("crash", []).append(d)
+                elif p.kind == "cyclic":
                     fails.setdefault("hang", []).append(d)
                 else:
                     chk.cap("timeout (not a verdict) on acyclic input %s depth %d" % (p.name, d))
@@ -511,7 +526,8 @@ def main():
             q = sig_pair(p, d0)
             sig = "%s:%s" % (kind, q.name)
             o = p.obs[d0]
-            what = {"crash": "killed by %s" % o.detail, "exit": "process exited silently (%s)" % o.detail,
+            what = {"crash": ("killed by %s" % o.detail if o.cls == "CRASH" else
+                              "loops for ever (wild jump; the same case segfaults under another memory layout)"), "exit": "process exited silently (%s)" % o.detail,
                     "dead": "process could not evaluate (+ 1 2) afterwards: %s" % o.detail,
                     "hang": ("did not finish within the timeout" if o.cls == "TIMEOUT"
                              else "looped until memory ran out (%s)" % o.detail)}[kind]
